@@ -33,6 +33,18 @@ void run_e2e(Toks &tk, std::ostream &os, const std::string &id)
     for (size_t i = 0; i < ur; i++)
         for (size_t k = 0; k < uc; k++)
             u(i, k) = tk.flt();
+    // VERIF_U_TUBES=t: the out-membership container is built as Matrix(rows, cols, t) through the inherited three-argument constructor
+    // (right rows and columns, but t tubes: its size is not rows * cols unless t = 1)
+    if (const char *ut = std::getenv("VERIF_U_TUBES"))
+    {
+        if constexpr (std::is_constructible_v<tensor::Matrix<double>, size_t, size_t, size_t>)
+        {
+            u = tensor::Matrix<double>(ur, uc, (size_t)std::atoi(ut));
+            os << id << " @utubes " << std::atoi(ut) << " " << u.size() << "\n";
+        }
+        else
+            os << id << " @utubes unsupported\n";
+    }
     size_t vr = (size_t)tk.integer(), vc = (size_t)tk.integer();
     if (vr * vc > 0)
     {
@@ -215,9 +227,10 @@ void run_e2e(Toks &tk, std::ostream &os, const std::string &id)
     {
         auto d = u.dims();
         os << id << " u " << std::get<0>(d) << " " << std::get<1>(d) << " :";
-        for (size_t a = 0; a < std::get<0>(d); a++)
-            for (size_t b = 0; b < std::get<1>(d); b++)
-                os << " " << hx(u(a, b));
+        if (std::get<0>(d) * std::get<1>(d) <= u.size())          // (a container built with zero tubes has rows and columns but no entry)
+            for (size_t a = 0; a < std::get<0>(d); a++)
+                for (size_t b = 0; b < std::get<1>(d); b++)
+                    os << " " << hx(u(a, b));
         os << "\n";
     }
     {
